@@ -11,6 +11,11 @@ import (
 	"github.com/0xReLogic/Helios/internal/verifrt"
 )
 
+// verifBreakerExtraSuccess: success_threshold = 1 + this (1 makes the half-open
+// budget smaller than the threshold, so sequential requests reach the
+// "too many requests" rejection).
+var verifBreakerExtraSuccess = 0
+
 const (
 	verifFeatBreaker = 1
 	verifFeatLimiter = 2
@@ -38,7 +43,7 @@ func verifFullLB(strategy, n, features int) (*LoadBalancer, []*Backend) {
 		cfg := &config.Config{}
 		cfg.CircuitBreaker.Enabled = true
 		cfg.CircuitBreaker.FailureThreshold = verifrt.IntRange("failure_threshold", 1, 2)
-		cfg.CircuitBreaker.SuccessThreshold = 1
+		cfg.CircuitBreaker.SuccessThreshold = 1 + verifBreakerExtraSuccess
 		cfg.CircuitBreaker.MaxRequests = 1
 		cfg.CircuitBreaker.IntervalSeconds = 60
 		cfg.CircuitBreaker.TimeoutSeconds = 30
@@ -86,6 +91,11 @@ func verifServe(lb *LoadBalancer, rec http.ResponseWriter, fin func(), r *http.R
 // (any backend behaviour incl. abort, rate limiting, breaker rejection, no
 // healthy backend) the published numbers add up.
 func VerifC13Accounting(strategy, features, k, arbHealth int) {
+	verifBreakerExtraSuccess = 0
+	if features&verifFeatBreaker != 0 && arbHealth == 0 {
+		verifBreakerExtraSuccess = verifrt.Choice("success_threshold_minus_1", 2)
+	}
+	defer func() { verifBreakerExtraSuccess = 0 }()
 	lb, bs := verifFullLB(strategy, 2, features)
 	for _, b := range bs {
 		if arbHealth != 0 {
